@@ -11,27 +11,33 @@ import subprocess, os
 from vlib import runner
 ID = "C02"
 MODULE = "PotasscoVerif.Props.C02"
-THEOREMS = ["PotasscoVerif.C02.C02_map_injective", "PotasscoVerif.C02.C02_map_stable", "PotasscoVerif.C02.C02_aux_fresh", "PotasscoVerif.C02.convert_steps",
+EXTRA_MODULES = ["PotasscoVerif.Props.C02sem", "PotasscoVerif.Lemmas.AspEnum"]
+THEOREMS = ["PotasscoVerif.C02.C02_stable_models", "PotasscoVerif.C02.C02_equivalence", "PotasscoVerif.C02.C02_cost", "PotasscoVerif.C02.C02_compute_false",
+            "PotasscoVerif.Asp.translation_stable", "PotasscoVerif.Asp.translation_stable_back", "PotasscoVerif.Asp.stableB_iff", "PotasscoVerif.Asp.stableModels_complete", "PotasscoVerif.Asp.stableModels_sound",
+            "PotasscoVerif.C02.C02_map_injective", "PotasscoVerif.C02.C02_map_stable", "PotasscoVerif.C02.C02_aux_fresh", "PotasscoVerif.C02.convert_steps",
             "PotasscoVerif.C02.C02_minimize_flip", "PotasscoVerif.C02.C02_minimize_sorted", "PotasscoVerif.C02.flushMinimize_order"]
-PARTIAL = {"C02_equivalence (stable models)": "that the emitted program has the same stable models / shown names / external behaviour / cost order is decided by the brute-force "
-           "answer-set oracle on the implementation's output (all interpretations of programs with up to 7 atoms) and by model == implementation; proved are the properties "
-           "of the atom map and of the minimize rewriting that the equivalence argument rests on"}
+PARTIAL = {"C02_equivalence for external directives and several steps": "C02_stable_models / C02_equivalence / C02_cost are proved for one program step of rules (all head kinds, normal and weight bodies), "
+           "minimize and output directives; programs with external directives (how a free/true external on an undefined atom is emitted as choice/fact, or passed on with the extension), and the "
+           "answer sets of several incremental steps taken together, are decided by the brute-force answer-set oracle on the implementation's output and by model == implementation; across steps "
+           "only the atom map is proved (C02_map_stable, C02_aux_fresh)"}
 BSIZES = (4096,)
 LPCONVERT = True
 RULE = ("programs of 1..8 directives over 2..6 atoms: disjunctive/choice heads incl. empty, normal and weight bodies (bounds < 0, 0, reachable, unreachable; weights 0/1/mixed), "
         "minimize with negative weights and repeated priorities, outputs with empty / negative / compound conditions and repeated atoms and names, externals of all four values "
         "(also on head atoms), with clasp extensions on and off; multi-step programs for the mapping; a sample through the lpconvert executable; "
         "distinct = distinct call lists; non-trivial = at least 4 directives")
-TRUSTED = ["props/asp_sem.py (reduct-based stable models for weight constraint programs)"]
+TRUSTED = ["props/asp_sem.py (reduct-based stable models for weight constraint programs; cross-checked on every run against the executable enumerator of Spec/Asp.lean, which is proved to decide the declarative definition: stableB_iff)"]
 ASSUMPTIONS = ["fewer than 2^28 atoms are mapped (bit-field smId:28)", "output names contain no NUL", "semantic oracle on single-step programs; multi-step programs only for the atom map",
                "std::sort of symbols with equal atoms is modelled as stable (two names for one smodels atom arise only from an _edge atom that also carries a heuristic)"]
-TECHNIQUE = "Lean 4 theorems on the converter model (atom map injective/stable/fresh auxiliaries, emitted atoms in range, minimize rewriting) + differential correspondence with the real SmodelsConvert and lpconvert + brute-force answer-set oracle"
-LEVEL_TEXT = ("For EVERY call sequence of the model: C02_map_injective (two input atoms never share an output atom; output atoms start at 2, atom 1 is the false atom), C02_map_stable "
-              "(an atom keeps its image for ever, across steps), C02_aux_fresh (every auxiliary atom is new: never the image of an input atom, never reused; all three follow from convert_steps: every operation of the converter is a "
-              "sequence of 'map a new input atom to the next free atom' / 'create an auxiliary atom' steps), C02_minimize_flip (w·[l] = |w|·[¬l] + w for w < 0: the flipped statement differs from the original by the "
-              "constant Σ_{w<0} w, per priority), C02_minimize_sorted + flushMinimize_order (pending statements have pairwise different, ascending priorities and are emitted in exactly that order). Equivalence of answer sets, shown names, "
-              "externals and cost order: brute-force oracle on the implementation + model == implementation.")
-LEVEL_NOTE = ("Partial proof + correspondence (~4k quick / 100k thorough programs × ext on/off, sample through lpconvert) + answer-set oracle on small programs. Trusted: Lean kernel+axioms, "
+TECHNIQUE = "Lean 4 theorems on the converter model against a stable-model semantics (answer sets, shown names and costs preserved one to one for a program step; atom map injective/stable/fresh auxiliaries; minimize rewriting) + differential correspondence with the real SmodelsConvert and lpconvert + brute-force answer-set oracle"
+LEVEL_TEXT = ("Reference semantics Spec/Asp.lean (stable models with disjunctive/choice heads and weight bodies, reduct as a two-interpretation satisfaction relation). "
+              "Asp.translation_stable / translation_stable_back: renaming by an injection + false atom for integrity constraints + routing a body through a fresh auxiliary atom preserve stable models one to one. "
+              "Lemmas/ConvertSem.lean: for EVERY step of rules, weight rules, minimize and output directives the converter model emits such a translation under its own atom map (invariants J, K, M over the run). "
+              "C02_stable_models / C02_equivalence: restriction to the mapped atoms and the extension E by the auxiliary atoms are mutually inverse bijections between the answer sets of the given and of the emitted rules "
+              "(false atom false = the emitted compute statement, C02_compute_false), and corresponding answer sets show exactly the same symbol names. C02_cost: per priority the emitted cost is the given cost minus "
+              "the constant sum of negative weights. For EVERY call sequence: C02_map_injective, C02_map_stable, C02_aux_fresh (via convert_steps), C02_minimize_flip, C02_minimize_sorted + flushMinimize_order "
+              "(one statement per priority, ascending). Externals and multi-step semantics: brute-force oracle on the implementation + model == implementation.")
+LEVEL_NOTE = ("Proof of the single-step equivalence (answer sets, shown names, cost) without externals; partial for externals/multi-step + correspondence (~4k quick / 100k thorough programs × ext on/off, sample through lpconvert) + answer-set oracle on small programs. Trusted: Lean kernel+axioms, "
               "asp_sem.py, harness, generator in props/c02.py. D9 (INT_MIN minimize weight) repaired.")
 
 I32 = 2**31 - 1
@@ -183,6 +189,26 @@ def evaluate(ctx, cases):
                     else: ctx.fail(v[0], v[1], jc, dict(v[2], emitted=" ".join(emitted)[:500]))
         ctx.compared += 1
         if i != m: ctx.disagree("SmodelsConvert", jc, i[:600], m[:600])
+    # --- the oracle against the specification: the stable models asp_sem.py computes for the ORIGINAL rules must be those of the
+    #     executable enumerator of Spec/Asp.lean (proved to decide `Stable`: Lemmas/AspEnum.lean), the semantics the theorems are about
+    spec = []
+    for c in cases:
+        if c["inc"]: continue
+        o = original(c); oa = sorted(asp_sem.atoms_of(o))
+        if len(oa) > 7 or not oa: continue
+        rules = list(o["rules"]); defined = set(h for _, head, _ in rules for h in head)
+        for a, v in o["externals"].items():
+            if a in defined: continue
+            if v == 0: rules.append((1, [a], ("n", [])))
+            elif v == 1: rules.append((0, [a], ("n", [])))
+        ws = ["R,%d,%s,%s" % (ht, progs.lst(h), progs.lst(b[1])) if b[0] == "n" else "S,%d,%s,%d,%s" % (ht, progs.lst(h), b[1], progs.wl(b[2])) for ht, h, b in rules]
+        spec.append((c, "asp %s %s" % (":".join(map(str, oa)), " ".join(ws)), sorted(sorted(I) for I in asp_sem.stable_models(o, oa))))
+        if len(spec) >= {"quick": 1500, "thorough": 20000}[ctx.tier]: break
+    for (c, l, want), got in zip(spec, ctx.model([l for _, l, _ in spec])):
+        ctx.dist["spec-vs-oracle"] += 1
+        ms = got.rsplit(" ", 1)[0]
+        gotm = sorted(sorted(int(x) for x in m.split(".")) if m != "-" else [] for m in ms.split("|")) if ms else []
+        if gotm != want: ctx.disagree("Spec/Asp.lean stableModels vs asp_sem.py", jsonable(c), str(want)[:300], got[:300])
     # --- a sample through the lpconvert executable: aspif text in, smodels text out == SmodelsOutput(ext, 0) fed with the converter's calls
     nlp = {"quick": 120, "thorough": 1500}[ctx.tier]
     todo = [(c, i) for c, i in zip(cases, impl) if isinstance(i, str)][:nlp]
